@@ -556,6 +556,12 @@ func heapHistEval(c *Ctx, raw []byte) {
 			}
 			livePath, live = hhPathOf(root, t)
 		}
+		// "removing a path" where lookup finds nothing: the removed subtree is empty
+		absentBefore := (op.Op == "remove" || op.Op == "removeat") && t.(dom.Container).Lookup(op.Path) == nil
+		targetSnap := ""
+		if absentBefore {
+			targetSnap = heapSnapshot([]dom.Node{t})
+		}
 		var res hhResult
 		o, txt := guard(func() { res = hhApply(st, op) })
 		det := map[string]any{"step": i, "op": op}
@@ -576,6 +582,9 @@ func heapHistEval(c *Ctx, raw []byte) {
 			// "a value written at a path is what lookup returns there": the node itself
 			got := t.(dom.Container).Lookup(op.Path)
 			c.Direct("set-get: lookup returns the node that was written", got != nil && nodeID(got) == nodeID(res.val), det)
+			if op.VH == nil {
+				c.Direct("set-get: lookup returns the value that was written", got != nil && canon(nodeWire(got)) == canon(op.V), det)
+			}
 			if live {
 				got := root.Lookup(livePath + "." + op.Path)
 				c.Direct("set-get through a live handle: visible from the root at the handle's path",
@@ -592,6 +601,10 @@ func heapHistEval(c *Ctx, raw []byte) {
 				canon(nodeWire(t.(dom.Container).Lookup(op.Path))) == canon(nodeWire(res.ret)), det)
 		case "remove", "removeat":
 			c.Direct("remove-get", t.(dom.Container).Lookup(op.Path) == nil, det)
+			if absentBefore {
+				c.Direct("frame(remove): removing a path at which lookup finds nothing changes nothing",
+					heapSnapshot([]dom.Node{t}) == targetSnap, det)
+			}
 			if live {
 				c.Direct("remove through a live handle: gone from the root at the handle's path",
 					root.Lookup(livePath+"."+op.Path) == nil, map[string]any{"step": i, "op": op, "handle at": livePath})
